@@ -191,7 +191,7 @@ VerdictPopOnDev(rec) ==
 (* f * 100000 units; rec.offset seconds are subtracted, floor at zero               *)
 Instant(f, drop, off) ==
   LET t == MulSmall(FromSmall(f), IF drop THEN 100000 ELSE 100100)
-      o == MulSmall(FromSmall(off), 3000000) IN
+      o == MulSmall(MulSmall(FromSmall(off), 3000), 1000) IN
   IF Leq(o, t) THEN Sub(t, o) ELSE <<>>
 FiveFrames(drop) == FromSmall(5 * (IF drop THEN 100000 ELSE 100100))
 FourSeconds3 == FromSmall(12000000)
